@@ -1076,16 +1076,21 @@ impl Translator {
 
                 let (_, captures, _locals) =
                     self.calculate_args_captures_locals(&overload_ty, args, body, mono);
+                // A variable whose type is void in this instantiation is not captured, but the
+                // body still has to learn what its type stands for: the types that instantiate
+                // the body are those of every outer variable it uses.
+                let (_, outer_variables, _) =
+                    self.calculate_args_captures_locals(&None, args, body, &MonomorphEnv::empty());
 
                 let desc = FuncDesc {
                     kind: FuncKind::AnonymousFunc {
                         lambda: expr.clone(),
-                        capture_types: captures
+                        capture_types: outer_variables
                             .iter()
                             .cloned()
                             .map(|capture| self.statics.solution_of_node(capture).unwrap())
                             .collect(),
-                        capture_types_concrete: captures
+                        capture_types_concrete: outer_variables
                             .iter()
                             .cloned()
                             .map(|capture| self.get_ty(mono, capture).unwrap())
